@@ -15,7 +15,7 @@ from sa.model import Func, Repo
 from sa.norm import T
 from sa.report import Check
 
-from .common import depends_on, flow_of, has_fact, subexprs
+from .common import callee_name, depends_on, flow_of, has_fact, subexprs
 
 TRACE = "snaxc/inference/trace_acc_state.py"
 HELPERS = "snaxc/inference/helpers.py"
@@ -277,40 +277,85 @@ def infer_state(repo: Repo, chk: Check) -> None:
 
 def intersection(repo: Repo, chk: Check) -> None:
     f, fl = flow_of(repo, chk, TRACE, "state_intersection")
-    chk.rule("C07.intersection", "state_intersection keeps a key only if both sides hold the same value", floor=1)
-    a, b = f.param(0), f.param(1)
+    chk.rule("C07.intersection", "state_intersection keeps a key only if every side holds it with the same value: a key that is missing on one side does not "
+             "count as agreeing (no lookup with the compared value as its default)", floor=1)
+    params = [x.arg for x in f.node.args.args]
+    star = f.node.args.vararg.arg if f.node.args.vararg is not None else None
+    if len(params) < 2 and star is None:
+        raise AnalysisError(f"{f.where}: expected two states or a variadic list of states, found {params}")
     rets = [s for s in fl.stmts(ast.Return) if s.reachable]
     if not rets:
         raise AnalysisError(f"{f.where}: no return")
+    # names bound from the variadic parameter: first, *others = states / first = states[0]; others = states[1:]
+    rest_names: set[str] = set()
+    first_names: set[str] = set()
+    if star is not None:
+        for n in ast.walk(f.node):
+            if isinstance(n, ast.Assign) and len(n.targets) == 1:
+                t, v = n.targets[0], n.value
+                if isinstance(t, ast.Tuple) and isinstance(v, ast.Name) and v.id == star and len(t.elts) == 2 and isinstance(t.elts[0], ast.Name) \
+                        and isinstance(t.elts[1], ast.Starred) and isinstance(t.elts[1].value, ast.Name):
+                    first_names.add(t.elts[0].id)
+                    rest_names.add(t.elts[1].value.id)
+                elif isinstance(t, ast.Name) and norm.match(T(f"{star}[0]"), v) is not None:
+                    first_names.add(t.id)
+                elif isinstance(t, ast.Name) and norm.match(T(f"{star}[1:]"), v) is not None:
+                    rest_names.add(t.id)
     for s in rets:
-        v = s.expand(s.node.value)
+        v = s.node.value if star is not None else s.expand(s.node.value)
         ok = False
+        lenient: list[str] = []
         if isinstance(v, ast.DictComp) and len(v.generators) == 1:
             gen = v.generators[0]
             it_names = norm.free_names(gen.iter)
-            over = a if a in it_names and b not in it_names else b if b in it_names and a not in it_names else None
-            other = b if over == a else a
+            sides = set(params) | first_names
+            overs = [x for x in sides if x in it_names]
+            over = overs[0] if len(overs) == 1 else None
             if over is not None:
+                # a value of the iterated side: mentions it, or is a value variable bound by iterating its items()/values()
+                vals = {over}
+                if norm.any_match(["$d.items()"], gen.iter, {"d": over}) is not None and isinstance(gen.target, ast.Tuple) and len(gen.target.elts) == 2 \
+                        and isinstance(gen.target.elts[1], ast.Name):
+                    vals.add(gen.target.elts[1].id)
+                if norm.any_match(["$d.values()"], gen.iter, {"d": over}) is not None and isinstance(gen.target, ast.Name):
+                    vals.add(gen.target.id)
+                # (comparison atom, name of the other side): directly, or for every element of the remaining sides
+                cands: list[tuple[ast.expr, str]] = []
                 for c in gen.ifs:
                     for at in norm.atoms(c, True):
-                        if isinstance(at, ast.Compare) and len(at.ops) == 1 and isinstance(at.ops[0], (ast.Eq, ast.Is)):
-                            l, r = norm.free_names(at.left), norm.free_names(at.comparators[0])
-                            # a value of the iterated side: mentions it, or is a value variable bound by iterating its items()/values()
-                            vals = {over}
-                            if norm.any_match(["$d.items()"], gen.iter, {"d": over}) is not None and isinstance(gen.target, ast.Tuple) and len(gen.target.elts) == 2 \
-                                    and isinstance(gen.target.elts[1], ast.Name):
-                                vals.add(gen.target.elts[1].id)
-                            if norm.any_match(["$d.values()"], gen.iter, {"d": over}) is not None and isinstance(gen.target, ast.Name):
-                                vals.add(gen.target.id)
-                            if (l & vals and other in r and other not in l) or (r & vals and other in l and other not in r):
-                                ok = True
+                        if isinstance(at, ast.Compare):
+                            cands += [(at, o) for o in params if o != over]
+                        if isinstance(at, ast.Call) and callee_name(at) == "all" and len(at.args) == 1 and isinstance(at.args[0], (ast.GeneratorExp, ast.ListComp)) \
+                                and len(at.args[0].generators) == 1 and not at.args[0].generators[0].ifs:
+                            g2 = at.args[0].generators[0]
+                            covers = (isinstance(g2.iter, ast.Name) and g2.iter.id in rest_names) or norm.match(T(f"{star}[1:]"), g2.iter) is not None or (
+                                isinstance(g2.iter, ast.Name) and g2.iter.id == star)
+                            if isinstance(g2.target, ast.Name) and covers:
+                                cands += [(x, g2.target.id) for x in norm.atoms(at.args[0].elt, True) if isinstance(x, ast.Compare)]
+                for at, other in cands:
+                    if len(at.ops) != 1 or not isinstance(at.ops[0], (ast.Eq, ast.Is)):
+                        continue
+                    for mine, theirs in ((at.left, at.comparators[0]), (at.comparators[0], at.left)):
+                        if not (norm.free_names(mine) & vals) or other in norm.free_names(mine) or other not in norm.free_names(theirs):
+                            continue
+                        # the other side's value: other[k] or other.get(k) - a default that is the compared value makes a missing key agree
+                        gets = [n for n in ast.walk(theirs) if isinstance(n, ast.Call) and isinstance(n.func, ast.Attribute) and n.func.attr in ("get", "setdefault", "pop")
+                                and isinstance(n.func.value, ast.Name) and n.func.value.id == other and len(n.args) + len(n.keywords) >= 2]
+                        soft = [g for g in gets if any(norm.free_names(a_) & vals for a_ in [*g.args[1:], *[k.value for k in g.keywords]])]
+                        if soft:
+                            lenient.append(ast.unparse(soft[0]))
+                        else:
+                            ok = True
+        if lenient:
+            ok = False
         chk.result(
             ok,
             "C07.intersection",
             f"{f.key}:equality-filter",
             s.where(),
-            "a key survives only under equality of both sides",
-            f"state_intersection does not filter on equality of both sides: {ast.unparse(v)[:160]}",
+            "a key survives only under equality of every side",
+            (f"a key that is missing on one side survives: `{lenient[0]}` falls back to the compared value itself, so the state after a branch / loop keeps fields "
+             "that one path never wrote" if lenient else f"state_intersection does not filter on equality of both sides: {ast.unparse(v)[:160]}"),
         )
 
 
